@@ -1,6 +1,6 @@
 (** C17 - the outcome does not depend on how torrents and directories are presented.  Statements only. *)
 From TB Require Import Base Decimal BencodeModel TorrentModel TorrentProofs PathModel FsModel SolverModel FinderModel RunModel
-                       SolverProofs RunProofs FsProofs FaultProofs PreludeProofs TableProofs FinderProofs SearchProofs PresentProofs Generated GeneratedObligations GlueProofs.
+                       SolverProofs RunProofs FsProofs FaultProofs PreludeProofs TableProofs FinderProofs SearchProofs PresentProofs Generated GeneratedObligations GlueProofs SystemModel SystemProofs EstablishProofs CompleteProofs RerunProofs AvailProofs ScanSetProofs.
 From Coq Require Import Permutation Sorted.
 Local Open Scope N_scope.
 
@@ -45,9 +45,34 @@ Theorem C17_presented_list_ok H xs : Forall (fun x => len x <= u64max) xs ->
   Forall torrent_ok (distinct_torrents (loaded H xs)) /\ NoDup (map t_info_hash (distinct_torrents (loaded H xs))).
 Proof. exact (presented_list_ok H xs). Qed.
 
+(** THE SCAN DIRECTORIES.  Everything C02's theorems say about them they say through
+    [under_of scans] ("the file lies under one of the scan directories").  That function is the same
+    when the list is permuted, when a directory is repeated, when a directory lying inside another
+    is added; adding any other directory (the export directory included) only adds files. *)
+Theorem C17_scan_list_permuted scans scans' : Permutation scans scans' -> forall p, under_of scans p = under_of scans' p.
+Proof. exact (under_of_perm scans scans'). Qed.
+Theorem C17_scan_directory_repeated s scans : In s scans -> forall p, under_of (s :: scans) p = under_of scans p.
+Proof. exact (under_of_repeat s scans). Qed.
+Theorem C17_scan_directory_nested s s' scans : In s scans -> path_prefix s s' = true -> forall p, under_of (s' :: scans) p = under_of scans p.
+Proof. exact (under_of_nested s s' scans). Qed.
+Theorem C17_scan_directory_added s scans p : under_of scans p = true -> under_of (s :: scans) p = true.
+Proof. exact (under_of_more s scans p). Qed.
+
+(** MORE DATA.  A segment that is present stays present when files are added (nothing removed or
+    changed), when more directories are scanned and when more torrents are loaded. *)
+Theorem C17_presence_monotone content f f' under under' es0 es0' s c i :
+  fs_extends f f' -> (forall p, under p = true -> under' p = true) -> (forall e, In e es0 -> In e es0') ->
+  present content f under es0 s c i -> present content f' under' es0' s c i.
+Proof. exact (present_mono content f f' under under' es0 es0' s c i). Qed.
+
 Print Assumptions C17_distinct_torrents.
 Print Assumptions C17_torrent_list_presentation.
 Print Assumptions C17_candidates_order_independent.
 Print Assumptions C17_export_first_for_every_order.
 Print Assumptions C17_more_candidates_monotone.
 Print Assumptions C17_presented_list_ok.
+Print Assumptions C17_scan_list_permuted.
+Print Assumptions C17_scan_directory_repeated.
+Print Assumptions C17_scan_directory_nested.
+Print Assumptions C17_scan_directory_added.
+Print Assumptions C17_presence_monotone.
